@@ -536,6 +536,10 @@ func (vc *VC) smtLight(i int) string {
 func (vc *VC) smtLightPath(i, k int) string {
 	vc.emitLemmaAxioms()
 	var sb strings.Builder
+	if vc.prefixLight != "" && vc.prefixLightN == len(vc.out) {
+		sb.WriteString(vc.prefixLight)
+		return vc.lightTail(&sb, i, k)
+	}
 	for _, l := range vc.out {
 		for _, ln := range strings.Split(l, "\n") {
 			t := strings.TrimSpace(ln)
@@ -558,6 +562,12 @@ func (vc *VC) smtLightPath(i, k int) string {
 			sb.WriteString(ln + "\n")
 		}
 	}
+	vc.prefixLight = sb.String()
+	vc.prefixLightN = len(vc.out)
+	return vc.lightTail(&sb, i, k)
+}
+
+func (vc *VC) lightTail(sb *strings.Builder, i, k int) string {
 	o := vc.obls[i]
 	if k >= 0 {
 		sb.WriteString(fmt.Sprintf("(assert (and %s %s (not %s)))\n", o.Guard, o.Paths[k], o.Cond))
@@ -575,44 +585,61 @@ var heapVerRe = regexp.MustCompile(`([A-Za-z][A-Za-z0-9_.]*)[@!][0-9]+`)
 func (vc *VC) smtFocused(i int) string {
 	vc.emitLemmaAxioms()
 	o := vc.obls[i]
-	want := map[string]bool{"alloc": true}
+	want := map[string]bool{}
 	for _, m := range heapVerRe.FindAllStringSubmatch(o.Cond, -1) {
 		want[m[1]] = true
 	}
-	relevant := func(t string) bool {
-		for k := range vc.keepHyps {
-			if strings.Contains(t, k) {
-				return true
+	if vc.lineInfo == nil || vc.prefixN != len(vc.out) {
+		vc.lineInfo = nil
+		for _, l := range vc.out {
+			for _, ln := range strings.Split(l, "\n") {
+				t := strings.TrimSpace(ln)
+				fl := focusLine{text: ln}
+				if strings.HasPrefix(t, "(assert (=> R") && (strings.Contains(t, "(forall ") || strings.Contains(t, "(exists ")) {
+					f := strings.Fields(t)
+					if len(f) >= 5 && f[3] == "(and" {
+						fl.quant = true
+						fl.weak = fmt.Sprintf("(assert (=> %s %s))", f[2], strings.TrimRight(f[4], ")"))
+						fl.heaps = map[string]bool{}
+						ms := heapVerRe.FindAllStringSubmatch(t, -1)
+						fl.onlyAll = len(ms) > 0
+						for _, m := range ms {
+							if m[1] == "R" || strings.HasPrefix(m[1], "R.") || m[1] == "alloc" {
+								continue
+							}
+							fl.heaps[m[1]] = true
+							fl.onlyAll = false
+						}
+						for k := range vc.keepHyps {
+							if strings.Contains(t, k) {
+								fl.quant = false // always kept
+							}
+						}
+					}
+				}
+				vc.lineInfo = append(vc.lineInfo, fl)
 			}
 		}
-		for _, m := range heapVerRe.FindAllStringSubmatch(t, -1) {
-			if m[1] != "alloc" && m[1] != "R" && want[m[1]] {
-				return true
-			}
-		}
-		// pure allocation facts (monotonicity)
-		ms := heapVerRe.FindAllStringSubmatch(t, -1)
-		onlyAlloc := len(ms) > 0
-		for _, m := range ms {
-			if m[1] != "alloc" && m[1] != "R" && !strings.HasPrefix(m[1], "R.") {
-				onlyAlloc = false
-			}
-		}
-		return onlyAlloc
+		vc.prefixN = len(vc.out)
 	}
 	var sb strings.Builder
-	for _, l := range vc.out {
-		for _, ln := range strings.Split(l, "\n") {
-			t := strings.TrimSpace(ln)
-			if strings.HasPrefix(t, "(assert (=> R") && (strings.Contains(t, "(forall ") || strings.Contains(t, "(exists ")) && !relevant(t) {
-				f := strings.Fields(t)
-				if len(f) >= 5 && f[3] == "(and" {
-					sb.WriteString(fmt.Sprintf("(assert (=> %s %s))\n", f[2], strings.TrimRight(f[4], ")")))
-					continue
+	for _, fl := range vc.lineInfo {
+		if fl.quant && !fl.onlyAll {
+			rel := false
+			for h := range fl.heaps {
+				if want[h] {
+					rel = true
+					break
 				}
 			}
-			sb.WriteString(ln + "\n")
+			if !rel {
+				sb.WriteString(fl.weak)
+				sb.WriteString("\n")
+				continue
+			}
 		}
+		sb.WriteString(fl.text)
+		sb.WriteString("\n")
 	}
 	sb.WriteString(fmt.Sprintf("(assert (and %s (not %s)))\n", o.Guard, o.Cond))
 	sb.WriteString("(check-sat)\n")
@@ -636,11 +663,17 @@ func (vc *VC) smtPath(i, k int) string {
 // smtSingle renders a query file for one obligation only (no push/pop: the solvers' non-incremental strategies apply).
 func (vc *VC) smtSingle(i int) string {
 	vc.emitLemmaAxioms()
-	var sb strings.Builder
-	for _, l := range vc.out {
-		sb.WriteString(l)
-		sb.WriteString("\n")
+	if vc.prefixFull == "" || vc.prefixFullN != len(vc.out) {
+		var pb strings.Builder
+		for _, l := range vc.out {
+			pb.WriteString(l)
+			pb.WriteString("\n")
+		}
+		vc.prefixFull = pb.String()
+		vc.prefixFullN = len(vc.out)
 	}
+	var sb strings.Builder
+	sb.WriteString(vc.prefixFull)
 	o := vc.obls[i]
 	if o.Cover {
 		sb.WriteString(fmt.Sprintf("(assert %s)\n", o.Guard))
